@@ -101,7 +101,8 @@ static econf_file *realise(const EList &l, Build how, int tag) {
   econf_err e;
   switch (how) {
     case B_SETTERS: {
-      e = econf_newKeyFile(&kf, '=', '#');
+      // (the override carries other tags than the base: the result takes the base's - libeconf.h, econf_mergeFiles)
+      e = tag == 1 ? econf_newKeyFile(&kf, ':', ';') : econf_newKeyFile(&kf, '=', '#');
       VF_CHECK(e == ECONF_SUCCESS && kf, "harness", "newKeyFile failed");
       for (auto &x : l) {
         e = econf_setStringValue(kf, x.sec.empty() ? nullptr : x.sec.c_str(), x.key.c_str(), x.val.c_str());
@@ -213,13 +214,30 @@ static void check_pair(const EList &bl, Build bh, const EList &ol, Build oh) {
   // M6 part 1
   std::string db = full_dump(base), dov = full_dump(over);
   std::string wb = written_bytes(base, "b.out"), wo = written_bytes(over, "o.out");
+  const char base_d = econf_delimiter_tag(base), base_c = econf_comment_tag(base);
   econf_file *R = (econf_file *)-1;
   econf_err e = econf_mergeFiles(&R, base, over);
+  // the same merge once more, and the reverse one in between: a merge must not depend on merges that came before
+  econf_file *Rrev = (econf_file *)-1, *R2 = (econf_file *)-1;
+  econf_err erev = econf_mergeFiles(&Rrev, over, base);
+  econf_err e2m = econf_mergeFiles(&R2, base, over);
+  if (erev == ECONF_SUCCESS && Rrev && Rrev != (econf_file *)-1) econf_freeFile(Rrev);
   std::string db2 = full_dump(base), dov2 = full_dump(over);
   std::string wb2 = written_bytes(base, "b.out"), wo2 = written_bytes(over, "o.out");
   econf_freeFile(base);
   econf_freeFile(over);  // M7: R must not depend on them
+  if (!(e == ECONF_SUCCESS && R && R != (econf_file *)-1) && e2m == ECONF_SUCCESS && R2 && R2 != (econf_file *)-1) econf_freeFile(R2);
   VF_CHECK(e == ECONF_SUCCESS && R && R != (econf_file *)-1, "merge-failed", ctx << ": econf_mergeFiles rc=" << e);
+  {
+    VF_CHECK(e2m == ECONF_SUCCESS && R2 && R2 != (econf_file *)-1, "merge-failed", ctx << ": the same merge a second time: rc=" << e2m);
+    std::string d1 = full_dump(R, true), d2 = full_dump(R2, true);
+    std::string l1 = show(observe(R)), l2 = show(observe(R2));
+    econf_freeFile(R2);
+    VF_CHECK(d1 == d2 && l1 == l2, "second-merge-differs", ctx << ": merging the same pair a second time gave another result\nfirst:\n" << l1 << d1 << "second:\n" << l2 << d2);
+    if (base_d != 0)
+      VF_CHECK(econf_delimiter_tag(R) == base_d && econf_comment_tag(R) == base_c, "wrong-tags",
+               ctx << ": the result's delimiter/comment tags are '" << econf_delimiter_tag(R) << "' '" << econf_comment_tag(R) << "', the base's are '" << base_d << "' '" << base_c << "'");
+  }
   Observed ob = observe(R);
   std::string rdump = full_dump(R, true);  // every field of every entry must be the result's own copy (ASan: use after free)
   (void)rdump;
